@@ -1770,6 +1770,11 @@ def _dump_qcschema_output(f: TextIO, data: IOData) -> dict:
         # Remove 'keep_' from protocols keys (added in IOData for readability)
         for keep in data.extra["input"]["protocols"]:
             output_dict["protocols"][keep[5:]] = data.extra["input"]["protocols"][keep]
+    # The success flag is required by the schema (and by load_one).
+    if "success" in data.extra["output"]:
+        output_dict["success"] = data.extra["output"]["success"]
+    else:
+        output_dict["success"] = "error" not in data.extra["output"]
     if "error" in data.extra["output"]:
         output_dict["error"] = data.extra["output"]["error"]
     if "stderr" in data.extra["output"]:
